@@ -58,6 +58,7 @@ func TestMain(m *testing.M) {
 		Probes: []vk.Probe{
 			{ID: "K02a-buffer-full-wedges-commits", Present: probeK02a},
 			{ID: "K02b-first-tx-stale-blroot-after-discard", Present: probeK02b},
+			{ID: "K02c-truncation-ignores-uncommitted-txs", Present: probeK02c},
 		},
 	})
 }
@@ -819,7 +820,7 @@ func (e *env) checkAll(what string, full bool) {
 		l := e.get(id)
 		prev := sha256.Sum256(nil)
 		if id > 1 {
-			prev = e.get(id-1).alh
+			prev = e.get(id - 1).alh
 		}
 		h := l.hdr
 		if h.ID != id {
@@ -1111,6 +1112,12 @@ func (e *env) burst(rt *rapid.T) {
 				// releaseVLog wakes a single waiter whatever it waits for: next to concurrent readers/committers the wake-up can be
 				// lost for good (hang). That is a liveness matter of C14; here truncation runs concurrently only with one value log.
 				if e.lastN == 0 || (e.cfg.IOConc > 1 && !e.cfg.Embedded) {
+					continue
+				}
+				if e.st.LastPrecommittedTxID() > e.st.LastCommittedTxID() && vk.Excluded("K02c-truncation-ignores-uncommitted-txs") {
+					// known finding K02c: TruncateUptoTx only looks at committed transactions; the value of a precommitted one that was
+					// written before the value of the truncation point is deleted although the transaction is committed later
+					vk.CountExcluded("K02c-truncation-ignores-uncommitted-txs")
 					continue
 				}
 				m.arg = uint64(rapid.IntRange(1, int(e.lastN)).Draw(rt, "truncUpto"))
@@ -1623,7 +1630,9 @@ func runCase(rt *rapid.T, c *vk.Case, ext bool) {
 				}
 				c.Descf("K")
 			case "truncate":
-				if e.lastN > 0 {
+				if e.lastN > 0 && e.st.LastPrecommittedTxID() > e.st.LastCommittedTxID() && vk.Excluded("K02c-truncation-ignores-uncommitted-txs") {
+					vk.CountExcluded("K02c-truncation-ignores-uncommitted-txs")
+				} else if e.lastN > 0 {
 					m := uint64(rapid.IntRange(1, int(e.lastN)).Draw(rt, "truncUpto"))
 					if m > e.truncUpto {
 						e.truncUpto = m
@@ -1883,4 +1892,96 @@ func probeK02b() (bool, string) {
 		}
 	}
 	return true, detail
+}
+
+// probeK02c: a replica (external commit allowance) receives tx 2 before tx 1: ReplicateTx writes the values of tx 2 into the value
+// log, then waits for tx 1, whose values land in the next chunk. With tx 1 committed and tx 2 still only precommitted,
+// TruncateUptoTx(1) walks the committed transactions only and discards the chunk that holds the value of tx 2; once tx 2 is
+// committed its value cannot be read.
+func probeK02c() (bool, string) {
+	base := stx.Cfg{SyncFreqMs: 1, HdrVersion: 1, IOConc: 1, FileSize: 4096, TxLogCache: 10, MaxActiveTx: 100, MaxKeyLen: 64,
+		MaxValueLen: 4096, MaxTxEntries: 8, WriteBuf: 512, BulkSize: 1, FlushThld: 100, SyncThld: 100, IdxCache: 10, CompactionThld: 2, AHTSyncThld: 5,
+		MaxBuffered: 1 << 20}
+	pdir := vk.Dir()
+	defer os.RemoveAll(pdir)
+	pst, err := store.Open(pdir, base.Options().WithMaxConcurrency(4))
+	if err != nil {
+		return false, ""
+	}
+	var exps [][]byte
+	for i := 0; i < 2; i++ {
+		if _, err := stx.Commit(pst, []stx.Entry{{Key: []byte("k"), Value: bytes.Repeat([]byte{byte('a' + i)}, 4096)}}, false); err != nil {
+			pst.Close()
+			return false, ""
+		}
+		exp, err := pst.ExportTx(uint64(i+1), false, false, store.NewTx(8, 64))
+		if err != nil {
+			pst.Close()
+			return false, ""
+		}
+		exps = append(exps, append([]byte(nil), exp...))
+	}
+	pst.Close()
+
+	rdir := vk.Dir()
+	defer os.RemoveAll(rdir)
+	rcfg := base
+	rcfg.ExternalAllow = true
+	fs := fsim.New(rdir)
+	rst, err := store.Open(rdir, rcfg.Options().WithMaxConcurrency(4).WithAppFactory(fs.Factory()))
+	if err != nil {
+		return false, ""
+	}
+	defer rst.Close()
+	ctx, cancel := context.WithCancel(context.Background())
+	defer cancel()
+	done2 := make(chan error, 1)
+	go func() {
+		_, err := rst.ReplicateTx(ctx, exps[1], false, false)
+		done2 <- err
+	}()
+	// wait until the value of tx 2 went into the value log
+	wrote := false
+	for t0 := time.Now(); !wrote && time.Since(t0) < waitBound; {
+		for _, ev := range fs.Events() {
+			if ev.Log == "val_0" && ev.Kind == fsim.Append && len(ev.Data) == 4096 {
+				wrote = true
+			}
+		}
+		time.Sleep(200 * time.Microsecond)
+	}
+	if !wrote {
+		return false, ""
+	}
+	if _, err := rst.ReplicateTx(ctx, exps[0], false, false); err != nil {
+		return false, ""
+	}
+	if err := <-done2; err != nil {
+		return false, ""
+	}
+	wait := func(id uint64) bool {
+		if err := rst.AllowCommitUpto(id); err != nil {
+			return false
+		}
+		c, cancel := context.WithTimeout(context.Background(), waitBound)
+		defer cancel()
+		return rst.WaitForTx(c, id, false) == nil
+	}
+	if !wait(1) {
+		return false, ""
+	}
+	if err := rst.TruncateUptoTx(1); err != nil {
+		return false, ""
+	}
+	if !wait(2) {
+		return false, ""
+	}
+	tx := store.NewTx(8, 64)
+	if err := rst.ReadTx(2, false, tx); err != nil {
+		return true, "ReadTx(2) after the truncation: " + err.Error()
+	}
+	if _, err := rst.ReadValue(tx.Entries()[0]); err != nil {
+		return true, "replica: tx 2 replicated before tx 1 (its 4096-byte value fills value-log chunk 0, tx 1's goes to chunk 1); tx 1 committed, TruncateUptoTx(1), tx 2 committed: ReadValue(tx 2) = " + err.Error()
+	}
+	return false, ""
 }
